@@ -282,8 +282,10 @@ def solve_scipy(
     else:
         status = SolverStatus.FAILED
 
-    # Compute actual objective value (undo negation for maximize)
-    obj_value = float(result.fun)
+    # Compute actual objective value (undo negation for maximize).  It is evaluated
+    # at the returned point: after an abnormal termination the solver's own `fun`
+    # can belong to another iterate than `x`.
+    obj_value = float(obj_fn(np.asarray(result.x, dtype=float)))
     if problem.sense == "maximize":
         obj_value = -obj_value
 
